@@ -228,6 +228,9 @@ class _CommonFile:
 
         # don't bother preserving trailing whitespace, but do preserve trailing comments
         if skipped.rstrip():
+            # NOTE: a last line without newline must not swallow a record appended after it.
+            if not skipped.endswith((b"\n", b"\r")):
+                skipped += b"\n"
             source.append((_SKIPPED, skipped))
 
         # NOTE: not replacing ._records until parsing succeeds, so loading is atomic.
